@@ -72,7 +72,7 @@ func (k *kernel) whileFor(s *ast.ForStmt, ind int) {
 	for _, v := range f.order {
 		k.assigned(v)
 	}
-	sort.SliceStable(f.order, func(i, j int) bool { return f.order[i].declPos < f.order[j].declPos })
+	sort.SliceStable(f.order, func(i, j int) bool { return declLess(f.order[i], f.order[j]) })
 	isCarried := map[*variable]bool{}
 	var names, types []string
 	for _, v := range f.order {
@@ -89,7 +89,7 @@ func (k *kernel) whileFor(s *ast.ForStmt, ind int) {
 				r = append(r, v)
 			}
 		}
-		sort.SliceStable(r, func(i, j int) bool { return r[i].declPos < r[j].declPos })
+		sort.SliceStable(r, func(i, j int) bool { return declLess(r[i], r[j]) })
 		return r
 	}
 	bodyCaps, condCaps := capsOf(cb), capsOf(cc)
